@@ -98,7 +98,9 @@ def view_cfg(self):
         ("FIFO_STATUS.reuse", r[0x17]), ("DYNPD", r[0x1C]), ("FEATURE", r[0x1D]),
         ("rx_fifo", (hw.rx_n, hw.rx_pipe[0], hw.rx_pipe[1], hw.rx_pipe[2], hw.rx_len[0], hw.rx_len[1], hw.rx_len[2],
                      hw.rx_data[0], hw.rx_data[1], hw.rx_data[2])),
-        ("tx_fifo", (hw.tx_n, hw.tx_len[0], hw.tx_len[1], hw.tx_len[2], hw.tx_data[0], hw.tx_data[1], hw.tx_data[2])),
+        ("tx_fifo", (hw.tx_n, hw.tx_len[0], hw.tx_len[1], hw.tx_len[2], hw.tx_data[0], hw.tx_data[1], hw.tx_data[2],
+                     hw.tx_noack[0], hw.tx_noack[1], hw.tx_noack[2], hw.tx_ackpipe[0], hw.tx_ackpipe[1], hw.tx_ackpipe[2],
+                     hw.loaded)),
         ("CE", hw.ce), ("role_changed_with_CE_high", hw.ce_log), ("reserved_or_out_of_range_write", hw.bad_write),
     )
 
